@@ -76,6 +76,7 @@ class C18(Check):
     def make_world(self, run, rundir):
         w = CrashWorld("sqlite", rundir, density=0.0, sample_rng=stream(0, "x"))
         w.strict = False
+        w.diagnose = bool(run.get("diagnose"))
         return w
 
     def gen(self, seed, idx, tier):
@@ -191,6 +192,9 @@ class C18(Check):
         2. Otherwise (e.g. day-long gaps) the seam's liveness is established by a canary: 'write, wait 11.5 s,
            write' is run under the real clock and under the virtual clock; if both give the same verdict the store
            demonstrably reads the clock through the seam, and the virtual-time failure stands."""
+        res = self.execute(dict(run, diagnose=True), os.path.join(seams.SCRATCH_ROOT, "confirm-diagnose"))
+        if res["status"] == "abandoned" and res.get("tag") in ("C02", "C04", "C05"):
+            return False, "diagnostic replay: %s" % res["message"]
         total = sum(min(max(s.get("us", 0), 0), 11_500_000) for s in run["steps"] if s["op"] in ("tick", "slow"))
         exact = all(s.get("us", 0) <= 11_500_000 for s in run["steps"] if s["op"] in ("tick", "slow"))
         if exact and total <= 40_000_000:
